@@ -48,6 +48,10 @@ type block struct {
 	Fault    string
 	// PerRoundBits: every near/far assignment per round; otherwise one bit for all rounds.
 	PerRoundBits bool
+	// Renames: the histories are RenameHistories() instead of all histories over Alphabet; AllCuts:
+	// every composition into rounds (otherwise uncut, one cut at every position, cut everywhere).
+	Renames bool
+	AllCuts bool
 	// MinLen: skip shorter histories (used to avoid repeating what another block already covers).
 	MinLen int
 }
@@ -61,6 +65,7 @@ func plan(tier string) []block {
 			{Name: "close/reopen as legacy system notes, core alphabet, length<=4", Cfg: "legacy", Alphabet: coreAlphabet, MaxLen: 4, Fault: fault403},
 			{Name: "dropped connection at every request, full alphabet, length<=3", Cfg: "std", Alphabet: fullAlphabet, MaxLen: 3, Fault: faultDrop},
 			{Name: "COLLIDING id spaces (notes, label events, state events, iids all start at 1), core alphabet, length<=4", Cfg: "collide", Alphabet: coreAlphabet, MaxLen: 4, Fault: fault403},
+			{Name: "hostile NEW titles in title-change notes (9 titles x only/first/last rename x bare/busy issue), every cut, per-round overlap bits, 403 at every request", Cfg: "std", Renames: true, AllCuts: true, Fault: fault403, PerRoundBits: true},
 		}
 	}
 	return []block{
@@ -69,16 +74,25 @@ func plan(tier string) []block {
 		{Name: "close/reopen as legacy system notes, core alphabet, length<=3", Cfg: "legacy", Alphabet: coreAlphabet, MaxLen: 3, Fault: fault403},
 		{Name: "dropped connection at every request, core alphabet, length<=3", Cfg: "std", Alphabet: coreAlphabet, MaxLen: 3, Fault: faultDrop},
 		{Name: "COLLIDING id spaces (notes, label events, state events, iids all start at 1), core alphabet, length<=3", Cfg: "collide", Alphabet: coreAlphabet, MaxLen: 3, Fault: fault403},
+		{Name: "hostile NEW titles in title-change notes (9 titles x only/first/last rename x bare/busy issue), uncut / one cut at every position / cut everywhere, 403 at every request", Cfg: "std", Renames: true, Fault: fault403},
 	}
 }
 
 func (b block) cases() (cases []Case, histories int) {
-	for _, h := range Histories(b.Alphabet, b.MaxLen) {
+	hs := Histories(b.Alphabet, b.MaxLen)
+	if b.Renames {
+		hs = RenameHistories()
+	}
+	for _, h := range hs {
 		if len(h) < b.MinLen {
 			continue
 		}
 		histories++
-		for _, rounds := range Compositions(h) {
+		comps := Compositions(h)
+		if b.Renames && !b.AllCuts {
+			comps = SingleCuts(h)
+		}
+		for _, rounds := range comps {
 			k := len(rounds)
 			if b.PerRoundBits {
 				for mask := 0; mask < 1<<k; mask++ {
@@ -86,7 +100,7 @@ func (b block) cases() (cases []Case, histories int) {
 					for i := range near {
 						near[i] = mask&(1<<i) != 0
 					}
-					cases = append(cases, Case{Cfg: b.Cfg, Rounds: rounds, Near: near, Fault: b.Fault, Sel: -1, BaseOracles: true})
+					cases = append(cases, Case{Cfg: b.Cfg, Rounds: rounds, Near: near, Fault: b.Fault, Sel: -1, BaseOracles: true, CheckCache: b.Renames})
 				}
 			} else {
 				for _, bit := range []bool{true, false} {
@@ -94,7 +108,7 @@ func (b block) cases() (cases []Case, histories int) {
 					for i := range near {
 						near[i] = bit
 					}
-					cases = append(cases, Case{Cfg: b.Cfg, Rounds: rounds, Near: near, Fault: b.Fault, Sel: -1, BaseOracles: true})
+					cases = append(cases, Case{Cfg: b.Cfg, Rounds: rounds, Near: near, Fault: b.Fault, Sel: -1, BaseOracles: true, CheckCache: b.Renames})
 				}
 			}
 		}
